@@ -18,8 +18,9 @@ LEVEL_TEXT = ('Decides four clauses. C06-b: every value Request::read_payload re
               "the `== 0` test), and read_payload does not decide 'nothing received' from the value of a buffer byte. C06-c: the stream read that fills the head "
               'buffer is repeated (it sits in a loop) until the head is complete, so a head that arrives in several segments is parsed like the unsplit one. C06-d: '
               'the extent of what a parse covers is initialised from state kept across requests -- a necessary condition for serving a second request that arrived in'
-              ' the same segment as the first (known finding on the pinned tree: it starts from 0, the coalesced request is dropped). These are necessary conditions '
-              'of segmentation independence; the behaviour for all segmentations is not decided.')
+              ' the same segment as the first (known finding on the pinned tree: it starts from 0, the coalesced request is dropped). The search for the end of the '
+              'head runs over a prefix of the buffer bounded by the received count, not over the whole buffer (which keeps bytes of earlier requests). These are '
+              'necessary conditions of segmentation independence; the behaviour for all segmentations is not decided.')
 
 
 def run(ck, progs):
@@ -110,7 +111,7 @@ def c06b(ck, prog):
         ck.ob(R, "case%d" % n, ok, f.loc(None),
               "" if ok else "read_payload returns a payload built as %s: its extent is not the announced length, so whatever else arrived in the same segment (the next pipelined request, a trailing CRLF) becomes part of this request's body" % how,
               how="payload = %s" % how)
-    ck.floor(R, "payload cases", n, 3)
+    ck.floor(R, "payload cases", n, 2)
 
 
 STREAM_READ = r"(AsyncReadExt|ReadExt|AsyncRead)::read$|io::(read::)?ReadExt::read$"
@@ -185,6 +186,21 @@ def c06c(ck, prog):
         ck.ob("C06-c MUSTPASS head complete", "head-end-search:covers-every-window", okw, f.loc(w.sp),
               "" if okw else "the search for the end of the head %s: when `\\r\\n\\r` ends one read and `\\n` starts the next, the end is never found and the request is not answered" % why,
               how=why)
+    # (c'') ... and only at received bytes: the buffer is not wiped completely between requests (clear() stops at the first
+    # NUL), so a search over the whole buffer can find the terminator of an earlier request beyond `received`
+    fw = prog.inlined(f, 2, r"<impl \[T\]>::windows$|memchr::memmem|<impl \[T\]>::(starts_with|ends_with|contains)$")
+    searches = [c for c in fw.calls() if c.name in ("windows", "find", "contains", "position", "rposition") and c.args and "__buf__" in decision.describe_deep(fw, c.args[0], 8)
+                and fw.dominates(c.bb, [x for x in fw.calls() if re.search(r"request::method::Method::from_bytes$", x.callee or "")][0].bb) is not None]
+    searches = [c for c in searches if any(rd.bb in body and c.bb in body for body in natural_loops(fw).values()) or c.name == "windows"]
+    for c in searches:
+        d = decision.describe_deep(fw, c.args[0], 8)
+        bounded = re.search(r"(index|get_unchecked|get|index_mut)\((deref\(|deref_mut\()*[^,]*__buf__[^,]*,Range(To)?\{", d) is not None or re.search(r"split_at(_mut)?\([^,]*__buf__[^,]*,[^)]*\)\.0", d) is not None \
+            or re.search(r"take\(", d) is not None
+        ck.ob("C06-c MUSTPASS head complete", "head-end-search:within-received-bytes", bounded, fw.loc(c.sp),
+              "" if bounded else "the search for the end of the head runs over `%s`, not over the bytes received for this request: bytes of an earlier request that clear() left in the buffer (it stops wiping at the first NUL) "
+              "can end a head that has only partly arrived, so a head split across two segments is parsed truncated and refused" % d[:80],
+              how="searches a prefix of the buffer bounded by the received count")
+    ck.floor("C06-c MUSTPASS head complete", "head-end searches", len(searches), 1)
     # (d) the number of valid bytes at the start of a parse comes from state kept across requests, not from 0
     ext = [c for c in f.calls() if c.name in ("index", "get_unchecked", "get") and len(c.args) > 1 and "__buf__" in decision.describe_deep(f, c.args[0], 4)
            and f.dominates(c.bb, parse[0].bb)]
